@@ -47,6 +47,8 @@ def gen_requests(rng, tier):
         for rt in SROUTES:
             vals = [neg(), pos()] + ([0.0] if rt != 'SExponentialInitialSize' else [])
             rs += [['RPopSize', rt, v] for v in vals]
+            # the same routes under the multiple-merger models (their time scales N**2 / N**(alpha-1) must not hide the sign)
+            rs += [['RPopSize', rt, v, kind] for kind in ('dirac', 'beta') for v in (neg(), pos())]
         for rt in MROUTES:
             rs += [['RMigrationRate', rt, v] for v in (neg(), 0.0, pos())]
         rs += [['RBetaAlpha', a] for a in (0.5, 0.999, 2.001, 3.0, 1.5, 1.25, 1.0)]
